@@ -34,7 +34,7 @@ pub struct Sys { pub n: usize, pub trip: Vec<(usize, usize, f64)>, pub class: &'
 impl Sys {
     pub fn dense(&self) -> Vec<Vec<f64>> { let mut d = vec![vec![0.0; self.n]; self.n]; for &(r, c, v) in &self.trip { d[r][c] = v; } d }
     pub fn sparse(&self, rng: &mut Rng) -> Sparse<f64> { let mut t = self.trip.clone(); rng.shuffle(&mut t); Sparse::<f64>::from_triplets(self.n, self.n, &mut t) }
-    pub fn frob(&self) -> f64 { self.trip.iter().map(|t| t.2 * t.2).sum::<f64>().sqrt() }
+    pub fn frob(&self) -> f64 { norm2(&self.trip.iter().map(|t| t.2).collect::<Vec<f64>>()) }
     pub fn max_row_nnz(&self) -> usize { let mut c = vec![0usize; self.n]; for t in &self.trip { c[t.0] += 1; } c.into_iter().max().unwrap_or(0) }
 }
 
@@ -81,14 +81,24 @@ pub fn gen_any(rng: &mut Rng, n: usize) -> Sys {
     }
 }
 
-pub fn norm2(v: &[f64]) -> f64 { fl::dot_dd(v, v).f().sqrt() }
+/// Euclidean norm, safe over the whole exponent range: the entries are brought to O(1) by an exact power of two first
+pub fn norm2(v: &[f64]) -> f64 {
+    let m = v.iter().fold(0.0f64, |m, x| if x.abs() > m || x.is_nan() { x.abs() } else { m });
+    if m == 0.0 || !m.is_finite() { return m; }
+    let e = (m.log2().floor() as i32).clamp(-1000, 1000);
+    let (s1, s2) = (2f64.powi(-(e / 2)), 2f64.powi(-(e - e / 2)));
+    let w: Vec<f64> = v.iter().map(|x| x * s1 * s2).collect();
+    fl::dot_dd(&w, &w).f().sqrt() / s1 / s2
+}
 
 /// true residual ||b - A x||_2 in double-double
 pub fn true_resid(d: &Vec<Vec<f64>>, x: &[f64], b: &[f64]) -> f64 {
     let n = b.len();
     let mut s = fl::DD::ZERO;
-    for i in 0..n { let mut r = fl::DD::from(b[i]); for j in 0..n { if d[i][j] != 0.0 { r = r - fl::DD::prod(d[i][j], x[j]); } } s = s + r * r; }
-    s.f().sqrt()
+    let _ = &mut s;
+    let mut res = vec![0.0; n];
+    for i in 0..n { let mut r = fl::DD::from(b[i]); for j in 0..n { if d[i][j] != 0.0 { r = r - fl::DD::prod(d[i][j], x[j]); } } res[i] = r.f(); }
+    norm2(&res)
 }
 
 pub fn bits(v: &[f64]) -> Vec<u64> { v.iter().map(|x| x.to_bits()).collect() }
@@ -133,7 +143,7 @@ fn one_system(st: &mut Stats, rng: &mut Rng) {
     let d = sys.dense();
     let a = match catch(|| sys.sparse(rng)) { Outcome::Ok(a) => a, _ => return };
     let bkind = if sys.class == "small-integer" { 9 } else { rng.below(8) };
-    let b: Vec<f64> = match bkind { 0 => vec![0.0; n], 1 => (0..n).map(|_| rng.sym() * 1e6).collect(), 2 => (0..n).map(|_| rng.sym() * 1e-6).collect(), 3 => { let sc = *rng.pick(&[1e-18, 1e-40, 1e40, 1e-80, 2f64.powi(-520), 2f64.powi(-500), 2f64.powi(-540), 2f64.powi(-528), 1e100]); (0..n).map(|_| rng.sym() * sc).collect() } 9 => (0..n).map(|_| rng.int(-3, 3) as f64).collect(), _ => (0..n).map(|_| rng.sym()).collect() };
+    let b: Vec<f64> = match bkind { 0 => vec![0.0; n], 1 => (0..n).map(|_| rng.sym() * 1e6).collect(), 2 => (0..n).map(|_| rng.sym() * 1e-6).collect(), 3 => { let sc = *rng.pick(&[1e-18, 1e-40, 1e40, 1e-80, 2f64.powi(-520), 2f64.powi(-500), 2f64.powi(-540), 2f64.powi(-528), 1e100, 1e150, 1e200, 1e-200, 1e-250, 1e250]); (0..n).map(|_| rng.sym() * sc).collect() } 9 => (0..n).map(|_| rng.int(-3, 3) as f64).collect(), _ => (0..n).map(|_| rng.sym()).collect() };
     let x0: Vec<f64> = match rng.below(4) { 0 | 1 => vec![0.0; n], 2 => (0..n).map(|_| rng.sym()).collect(), _ => (0..n).map(|_| rng.sym() * 1e3).collect() };
     let tol = rng.logpos(1e-12, 1e-2);
     let budget = if sys.class == "small-integer" { rng.usize(0, 2 * n + 2) } else { *rng.pick(&[0usize, 1, 2, 3, 4, n, 3 * n + 10, 20 * n + 50]) };
